@@ -233,13 +233,38 @@ structure WalkSt where
   tsCalls : List Nat := []
   deriving DecidableEq, Repr, Inhabited
 
+/-- `if … && !quirks.contains(&q) { quirks.push(q) }` for each candidate in turn: a quirk already in
+the list is not pushed again (the four pushes inside the option loop, since
+fixes/C03-option-quirks-reported-once.patch; the same idiom as the TCP-level `ecn`). -/
+def addNew : List Quirk → List Quirk → List Quirk
+  | qs, [] => qs
+  | qs, q :: r => addNew (if qs.contains q then qs else qs ++ [q]) r
+
+/-- the quirks one iteration of the option loop wants to push (before the `contains` guards), in the
+order of the pushes: `opt+` (EOL with a non-zero byte after it), `exws`, `ts1-` then `ts2+` -/
+def stepQuirks (ty : Nat) (kind : Nat) (data rest : Bytes) : List Quirk :=
+  match kind with
+  | 0 => if rest.any (· != 0) then [.trailingNonZero] else []
+  | 3 =>
+    match data with
+    | shift :: _ => if shift > TcpConst.maxWscale then [.excessiveWindowScaling] else []
+    | [] => []
+  | 8 =>
+    (match data with
+      | a :: b :: c :: d :: _ => if be32 a b c d = 0 then [.ownTimestampZero] else []
+      | _ => []) ++
+    (match data with
+      | _ :: _ :: _ :: _ :: e :: f :: g :: h :: _ =>
+        if ty = SYN ∧ be32 e f g h ≠ 0 then [.peerTimestampNonZero] else []
+      | _ => [])
+  | _ => []
+
 /-- One iteration of `while let Some(opt) = TcpOptionPacket::new(buf)` on a non-empty `buf`;
 `rest` is `buf` after `buf = &buf[opt.packet_size().min(buf.len())..]`. -/
 def walkStep (ty : Nat) (kind : Nat) (data rest : Bytes) (st : WalkSt) : WalkSt :=
+  let quirks := addNew st.quirks (stepQuirks ty kind data rest)
   match kind with
-  | 0 =>
-    { st with olayout := st.olayout ++ [.eol (rest.length % 256)],
-              quirks := st.quirks ++ (if rest.any (· != 0) then [.trailingNonZero] else []) }
+  | 0 => { st with olayout := st.olayout ++ [.eol (rest.length % 256)], quirks := quirks }
   | 1 => { st with olayout := st.olayout ++ [.nop] }
   | 2 =>
     { st with olayout := st.olayout ++ [.mss],
@@ -248,25 +273,15 @@ def walkStep (ty : Nat) (kind : Nat) (data rest : Bytes) (st : WalkSt) : WalkSt 
                 | _ => st.mss }
   | 3 =>
     match data with
-    | shift :: _ =>
-      { st with olayout := st.olayout ++ [.ws], wscale := some shift,
-                quirks := st.quirks ++ (if shift > TcpConst.maxWscale then [.excessiveWindowScaling] else []) }
+    | shift :: _ => { st with olayout := st.olayout ++ [.ws], wscale := some shift, quirks := quirks }
     | [] => { st with olayout := st.olayout ++ [.ws] }
   | 4 => { st with olayout := st.olayout ++ [.sok] }
   | 5 => { st with olayout := st.olayout ++ [.sack] }
   | 8 =>
-    let q1 : List Quirk := match data with
-      | a :: b :: c :: d :: _ => if be32 a b c d = 0 then [.ownTimestampZero] else []
-      | _ => []
-    let q2 : List Quirk := match data with
-      | _ :: _ :: _ :: _ :: e :: f :: g :: h :: _ =>
-        if ty = SYN ∧ be32 e f g h ≠ 0 then [.peerTimestampNonZero] else []
-      | _ => []
     let calls : List Nat := match data with
       | a :: b :: c :: d :: _ :: _ :: _ :: _ :: _ => [be32 a b c d]
       | _ => []
-    { st with olayout := st.olayout ++ [.ts], quirks := st.quirks ++ q1 ++ q2,
-              tsCalls := st.tsCalls ++ calls }
+    { st with olayout := st.olayout ++ [.ts], quirks := quirks, tsCalls := st.tsCalls ++ calls }
   | k => { st with olayout := st.olayout ++ [.unknown k] }
 
 /-- The loop, with explicit fuel (`walk` supplies `buf.length`, which always suffices:
